@@ -324,7 +324,7 @@ func genC10RT(x *Ctx) {
 type rfc6184Item struct {
 	kind   byte     // 's' single, 'a' STAP-A, 'f' FU-A
 	nals   [][]byte // 's': one, 'a': any number
-	hdr    byte     // 'f': the NAL unit header octet
+	hdr    byte     // 'f': the NAL unit header octet; 'a': 0 = header per RFC, else the header to send
 	chunks [][]byte // 'f': the NAL unit payload, cut
 }
 
@@ -346,6 +346,9 @@ func rfc6184Encode(it rfc6184Item) [][]byte {
 			}
 		}
 		p := []byte{byte(f<<7 | nri<<5 | 24)}
+		if it.hdr != 0 {
+			p[0] = it.hdr // a sender that does not follow the F/NRI rule (receivers must not care)
+		}
 		for _, n := range it.nals {
 			p = append(p, byte(len(n)/256), byte(len(n)%256))
 			p = append(p, n...)
@@ -373,7 +376,7 @@ func writeRfc6184Item(t *Toks, it rfc6184Item) {
 	case 's':
 		t.Tok("s").Bytes(it.nals[0])
 	case 'a':
-		t.Tok("a").BytesList(it.nals)
+		t.Tok("a").Nat(int(rfc6184Encode(it)[0][0])).BytesList(it.nals)
 	default:
 		t.Tok("f").Nat(int(it.hdr)).BytesList(it.chunks)
 	}
@@ -411,6 +414,9 @@ func randomH264Plan(r *Rand, nitems int) []rfc6184Item {
 		case 1:
 			k := r.Pick(0, 1, 2, 2, 3, 5)
 			it := rfc6184Item{kind: 'a', nals: [][]byte{}}
+			if r.Chance(1, 4) {
+				it.hdr = byte(r.Intn(8)<<5 | 24)
+			}
 			for j := 0; j < k; j++ {
 				sz := r.Size(30, 1, 2)
 				if r.Chance(1, 40) {
